@@ -1,5 +1,6 @@
 import ImathVerif.Props.C01Preds
 import ImathVerif.Enum.C01.All
+import ImathVerif.Props.C01
 /-!
 # C02 — every half-conversion back-end and language mode returns identical bits
 
@@ -18,6 +19,10 @@ comparison of every configuration with the model over all 2^32 floats and all
 2^16 halves (F16C: modulo NaN payload), and a run of the real generator program
 diffed against toFloat.h.  The per-pattern facts are the kernel enumerations
 of `ImathVerif/Enum/C01` (shared with C01).
+
+`f2h_canon_is_ieee` states what the F16C comparison (NaN payload canonicalised) compares the
+hardware with: not merely "our model", but the unique IEEE-754 round-to-nearest-even result
+(`C01.f2h_is_the_rne`), signed infinity for infinities and sign|quiet-NaN for NaNs.
 -/
 namespace ImathVerif.Half.C02
 open ImathVerif ImathVerif.Half ImathVerif.Gen ImathVerif.Enum.C01
@@ -111,5 +116,46 @@ theorem genNormalize_fuel_adequate : ∀ m, 0 < m → m < 1024 → ∀ (k : Nat)
 -- non-vacuity: a concrete denormal significand, normalised in 10 steps
 example : (genNormalize 10 1 0) = (0x400, -10) := by decide
 example : (0 : Nat) < 1 ∧ (1 : Nat) < 1024 := by decide
+
+/-! ### what the F16C comparison compares the hardware with -/
+
+def p_canon (h : Nat) : Bool :=
+  canon16 h == (if (h / 1024) % 32 = 31 ∧ h % 1024 ≠ 0 then (h / 32768) * 32768 + 0x7e00 else h)
+
+/-- `canon16` in arithmetic form: NaN patterns become sign|0x7e00, everything else is kept -/
+theorem canon16_eq : ∀ h, h < 65536 →
+    canon16 h = if (h / 1024) % 32 = 31 ∧ h % 1024 ≠ 0 then (h / 32768) * 32768 + 0x7e00 else h := by
+  intro h hh
+  have hall : allBits 16 0 p_canon = true := by decide +kernel
+  have := forall_lt_of_allBits 16 p_canon hall h (by simpa using hh)
+  unfold p_canon at this
+  simpa using this
+
+/-- The software float->half with NaN results canonicalised — the left-hand side of the
+exhaustive F16C comparison — is the function IEEE-754 prescribes for a binary32->binary16
+conversion under round-to-nearest-even: sign|quiet-NaN for NaNs, signed infinity for
+infinities, and for every finite float the sign followed by THE round-to-nearest-even
+magnitude (`IsRNE16` has a unique solution).  So the `f16c` sweep tests the CPU's
+`vcvtps2ph` against IEEE-754, not against a private convention of the model. -/
+theorem f2h_canon_is_ieee : ∀ v, v < 4294967296 →
+    (0x7f800000 < v % 2147483648 → canon16 (f2h v) = (v / 2147483648) * 32768 + 0x7e00) ∧
+    (v % 2147483648 = 0x7f800000 → canon16 (f2h v) = (v / 2147483648) * 32768 + 0x7c00) ∧
+    (v % 2147483648 < 0x7f800000 → ∀ r, IsRNE16 (fval (v % 2147483648)) r →
+        canon16 (f2h v) = (v / 2147483648) * 32768 + r) := by
+  intro v hv
+  obtain ⟨hlt, hsg⟩ := C01.f2h_sign v hv
+  rw [canon16_eq _ hlt]
+  refine ⟨fun hn => ?_, fun hi => ?_, fun hf r hr => ?_⟩
+  · obtain ⟨a, b, _⟩ := C01.f2h_nan v hv hn
+    rw [if_pos ⟨a, b⟩, hsg]
+  · have := C01.f2h_inf v hv hi
+    rw [if_neg (by omega)]; exact this
+  · have e := C01.f2h_is_the_rne v hv hf r hr
+    have hr1 := hr.1
+    rw [if_neg (by omega)]; omega
+
+-- non-vacuity: one input of each class (signalling NaN, -inf, a tie)
+example : canon16 (f2h 0xff800001) = 0xfe00 ∧ canon16 (f2h 0xff800000) = 0xfc00 ∧
+    canon16 (f2h 0x38803000) = 0x0402 := by decide
 
 end ImathVerif.Half.C02
